@@ -9,4 +9,4 @@ require (
 	github.com/rs/xid v1.4.0 // indirect
 )
 
-replace github.com/mochi-mqtt/server/v2 => /verif/.build/mochi
+replace github.com/mochi-mqtt/server/v2 => ./.build/mochi
